@@ -64,8 +64,10 @@ func validateTaskParams(i interface{}) error {
 	if taskParams.ExpirationDuration < 0 ||
 		taskParams.AggregationWindow < 0 ||
 		taskParams.ThresholdScore.GT(MaxScore) ||
-		taskParams.Epsilon1.LT(sdk.NewInt(0)) ||
-		taskParams.Epsilon2.LT(sdk.NewInt(0)) {
+		// Epsilon1 and Epsilon2 are divisors of the bounty weights (score + Epsilon1, MaxScore - score + Epsilon2):
+		// with a zero epsilon a response scoring MinScore or MaxScore divides by zero in the end blocker.
+		!taskParams.Epsilon1.IsPositive() ||
+		!taskParams.Epsilon2.IsPositive() {
 		return ErrInvalidTaskParams
 	}
 	return nil
